@@ -36,7 +36,7 @@ NATIVE = {
     "long": (["1099511627776", "-1"], lambda s: int(s)),
     "double": (["1.5", "2.0", "1e10", "-0.25", "3"], lambda s: float(s)),
     "boolean": (["true", "false", "1", "0"], lambda s: s in ("true", "1")),
-    "string": (["abc", "", "line\nbreak", "5"], lambda s: s),
+    "string": (["abc", "", "line\nbreak", "5", "  lead", "trail  ", " ", "\tx\n", "a  b"], lambda s: s),
     "anyURI": (["http://x.org/y", "urn:a:b"], lambda s: ("uri", s)),
     "dateTime": (["2012-03-04T05:06:07", "2012-03-04T05:06:07.500000", "2012-03-04T05:06:07+01:00", "2012-03-04T05:06:07Z"],
                  lambda s: datetime.datetime.fromisoformat(s.replace("Z", "+00:00"))),
